@@ -549,3 +549,37 @@ def correspond(check, name, model_exe, impl_exe, lines, describe=None, bucket=No
         l, a, b = min(dis, key=lambda d: len(d[0]))
         check.broken.append("correspondence %s: %d disagreement(s); smallest: case %r model=%r impl=%r" % (name, len(dis), l[:200], a[:200], b[:200]))
     return dis
+
+
+def asan_lines(check, harness, lines, what="", timeout=3000):
+    """(added for C10/C12/C14) Run protocol lines through the ASan+UBSan build of a harness.  A sanitizer report or a
+    crash is a violation whose replay is the case being processed when it happened.  Returns True when clean."""
+    ok, blog = build_repo([harness], flavour="asan")
+    if not ok:
+        check.broken.append("asan build of %s failed: %s" % (harness, blog[-400:]))
+        return False
+    env = dict(os.environ, ASAN_OPTIONS="detect_leaks=0:allocator_may_return_null=1", UBSAN_OPTIONS="print_stacktrace=1:halt_on_error=1")
+    rc, out, err = run_lines(hx_bin(harness, "asan"), lines, timeout=timeout, env=env)
+    if rc != 0 or "AddressSanitizer" in err or "runtime error" in err:
+        idx = min(len(out), len(lines) - 1)
+        m = re.search(r"(ERROR: AddressSanitizer: [^\n]*|[^\n]*runtime error: [^\n]*)", err)
+        check.violation("memory: sanitizer report in %s %s while processing case %s: %s" % (harness, what, lines[idx][:200], m.group(1)[:300] if m else "status %s" % rc),
+                        {"op": "asan", "harness": harness, "case": lines[idx], "report": err[-1500:]})
+        return False
+    check.cov["traces_validated_against_impl"] += len(lines)
+    check.cov["distribution"]["asan/" + harness] = check.cov["distribution"].get("asan/" + harness, 0) + len(lines)
+    return True
+
+
+def coqchk(check, timeout=1500):
+    """(added for C10/C12/C14, thorough tier) Re-check the compiled closure of Props/Properties_<id>.vo with the
+    independent checker coqchk; records its verdict in the evidence."""
+    with Lock("coq"):
+        rc, out = run(["coqchk", "-silent", "-o", "-Q", "theories", "PP", "PP.Props.Properties_%s" % check.prop], cwd=COQ, timeout=timeout)
+    text = out.decode("utf-8", "replace")
+    ok = rc == 0 and "Axioms: <none>" in text and "type-in-type: <none>" in text and "unsafe (co)fixpoints: <none>" in text
+    check.cov["coqchk"] = " ".join(text.split())[-400:] if text.strip() else "rc=%s" % rc
+    check.cov["trusted_base"].append("coqchk -o over the .vo closure of Properties_%s: %s" % (check.prop, "passed, no axioms" if ok else "FAILED"))
+    if not ok:
+        check.broken.append("coqchk on Properties_%s: rc=%s %s" % (check.prop, rc, text[-400:]))
+    return ok
